@@ -108,6 +108,35 @@ Definition keys_m (b:board) (l:list action) : list (N * list cmove) :=
   (if existsb clearing_step (steps b l) then [] else [pos_key b])
   ++ map (fun s => pos_key (s_after s)) (from_last clearing_step (steps b l)).
 
+(** what these are, declaratively *)
+Lemma clock_m_spec b l :
+  exists pre post, steps b l = pre ++ post /\
+    forallb (fun s => negb (zeroing_step s)) post = true /\
+    (pre = [] \/ exists pre' s, pre = pre' ++ [s] /\ zeroing_step s = true) /\
+    clock_m b l = N.of_nat (length post).
+Proof.
+  unfold clock_m. destruct (after_last_spec zeroing_step (steps b l)) as [Hn [[_ E]|(pre & x & E & Fx)]].
+  - exists [], (steps b l). rewrite E in Hn |- *. repeat split; [exact Hn|left; reflexivity].
+  - exists (pre ++ [x]), (after_last zeroing_step (steps b l)). repeat split.
+    + rewrite <- app_assoc. exact E.
+    + exact Hn.
+    + right. exists pre, x. split; [reflexivity|exact Fx].
+Qed.
+Lemma keys_m_spec b l :
+  (existsb clearing_step (steps b l) = false /\
+   keys_m b l = pos_key b :: map (fun s => pos_key (s_after s)) (steps b l)) \/
+  (exists pre s post, steps b l = pre ++ s :: post /\ clearing_step s = true /\
+     forallb (fun t => negb (clearing_step t)) post = true /\
+     keys_m b l = map (fun t => pos_key (s_after t)) (s :: post)).
+Proof.
+  unfold keys_m.
+  destruct (from_last_spec clearing_step (steps b l)) as [[E1 E2]|(pre & x & post & E & Fx & Hp & E2)].
+  - left. rewrite E1, E2. split; reflexivity.
+  - right. exists pre, x, post. rewrite E2. repeat split; try assumption.
+    replace (existsb clearing_step (steps b l)) with true; [reflexivity|].
+    symmetry. rewrite E, existsb_app. cbn [existsb]. rewrite Fx, orb_true_r. reflexivity.
+Qed.
+
 (** *** by induction over the log (latest action last) *)
 Lemma clock_m_nil b : clock_m b [] = 0. Proof. reflexivity. Qed.
 Lemma keys_m_nil b : keys_m b [] = [pos_key b]. Proof. reflexivity. Qed.
